@@ -32,7 +32,10 @@ FilesMissing == {<< Missing >>, << Missing, <<1, 2, 3>> >>, << <<1, 2>>, Missing
 FilesBad == {<< <<-1>> >>, << <<-1, 2, 3>> >>, << <<1, -2, 3>> >>, << <<1, 2, -3>> >>, << <<1, 2, 3, -4>> >>,
              << <<1, 2>>, <<-3, 4>> >>, << <<1, -2, -3, 4>> >>}
 
-Mk(files, chain, b, werr, ferr) == [files |-> files, chain |-> chain, b |-> b, sgp |-> 2, werr |-> werr, ferr |-> ferr]
+Mk(files, chain, b, werr, ferr) == [files |-> files, chain |-> chain, b |-> b, sgp |-> 2, werr |-> werr, ferr |-> ferr, feed |-> FALSE, fflush |-> FALSE]
+\* input fed line by line with the pipe held open, flush after every record (the tail -f contract)
+MkFed(files, chain, b) == [files |-> files, chain |-> chain, b |-> b, sgp |-> 2, werr |-> 0, ferr |-> FALSE, feed |-> TRUE, fflush |-> TRUE]
+StreamingKinds == {V("cat", 0), V("filt", 0), V("dup", 0), V("head", 1), V("head", 2), V("tee", 0), V("print", 0)}
 
 MCConfigs ==
   CASE Family = "plain" ->
@@ -59,6 +62,9 @@ MCConfigs ==
     [] Family = "twofaults" ->
          {Mk(f, WithTrailing(c \o <<Cat>>), b, w, FALSE) : f \in {<< Missing, <<1, 2, 3>> >>, << <<1, -2, 3>> >>, << <<1, 2>>, Missing, <<-3, 4>> >>},
               c \in SeqsUpTo({V("fail", 1), V("fail", 2), V("cat", 0)}, MaxLen), b \in Bs, w \in {0, 2}}
+    [] Family = "tailf" ->
+         {MkFed(f, WithTrailing(c), b) : f \in {<< <<1, 2, 3>> >>, << <<1>> >>, << << >> >>},
+              c \in {x \in SeqsUpTo(StreamingKinds, MaxLen) : ~PrintBeforeHead(x)}, b \in Bs}
     [] Family = "printhead" ->
          {Mk(<< <<1, 2, 3, 4, 5, 6>> >>, WithTrailing(<<V("print", 0), V("head", 1)>>), b, 0, FALSE) : b \in Bs}
 =============================================================================
